@@ -122,7 +122,14 @@ ROUND6 = {   # clauses added in the sixth round (DESIGN.md section 11.6)
     "C13": " The type gate of the reference loader accepts any dict for a table parameter (inline tables are parsed into a dict subclass).",
     "C14": " Duplicate PMux inputs are decided on resolved components (a parent may be named by name or by rail).",
     "C18": " The name-resolving helpers do not resolve the empty string (the registry's 'no rail' value) to a component.",
+    "C15": " A call of another edit / configuration method counts as a modification and, after one, as a possible raise; when a commit adds an optional parameter the rules also run on the tree with the parameter left in (every call is quantified over, not only the default).",
+    "C16": " Every way through the re-linking loop of del_comp rewrites the kept child's input order.",
+    "C20": " A function written as cases is decided case by case (a case guarded by an equality after substituting it); purity is decided on the syntax before and independently of the closed forms.",
 }
+CANON_NOTE = (" Before any rule runs the parsed tree is brought to the vocabulary of a frozen inventory of the clean tree (sa/canon.py, sa/inventory.json): "
+              "effect-free logging and assertions dropped, new literal constants written out, new optional parameters fixed at their defaults, renames of private "
+              "helpers / attributes / registry keys undone, helpers the inventory does not know inlined, new local aliases written out. On the unchanged tree "
+              "this does nothing; it only rewrites, every verdict is a rule's.")
 
 
 def main():
@@ -142,7 +149,7 @@ def main():
             "replay_cmd_template": "/verif/check %s --replay {path}" % pid,
             "engine": "sa",
             "level_claimed": {"category": c.get("category", "other"), "text": c["text"], "design_ref": c["ref"]},
-            "level_note": c["note"],
+            "level_note": c["note"] + CANON_NOTE,
             "technique": c["technique"],
         })
     na = [{"property_id": p, "reason": NA.get(p, "check under construction (DESIGN.md section 4); not claimed yet")} for p in ALL if p not in CLAIMS]
